@@ -287,5 +287,564 @@ Proof.
       apply IH; try assumption.
       * eapply dt_update_largest_received_ok; eassumption.
       * eapply update_lr_acct; eassumption.
-      * intros s0. specialize (Hacks s0). cbn [app nacks is_ack] in Hacks. lia.
+Qed.
+
+(* ---------------------------------------------------------------- sys_inv, step by step, with the ghost list exposed *)
+Lemma sys_step_inv_same cap H G s o :
+  sys_inv cap H G s -> match o with OEncode _ _ | OResize _ => False | _ => True end ->
+  sys_inv cap H G (fst (sys_step s o)).
+Proof.
+  intros I Ho. destruct o as [sid fs|k|j honest|k|sid|n]; try contradiction.
+  - destruct (sys_step_inv cap H G s (ODeliver k) I eq_refl) as (H' & G' & I' & _). cbn [sys_step] in *.
+    destruct I as [He Hd Hu Hh Hc (d' & Ea & Hd' & Hu' & Hs') Hnosu Hsecs].
+    rewrite <- (firstn_skipn (N.to_nat k) (s_eq s)) in Ea. apply dec_apply_split in Ea. destruct Ea as (d1 & E1 & E2).
+    destruct (dec_apply_ok (firstn (N.to_nat k) (s_eq s)) (s_dec s) Hd Hu) as [Hd1 Hu1]. rewrite E1 in Hd1, Hu1. cbn [fst] in Hd1, Hu1.
+    assert (K : forall res, sys_inv cap H G (mkSys (s_enc s) d1 (skipn (N.to_nat k) (s_eq s)) res (s_secs s))).
+    { intros res. constructor; cbn [s_enc s_dec s_eq s_secs]; try assumption; [exists d'; auto|].
+      rewrite <- (firstn_skipn (N.to_nat k) (s_eq s)) in Hnosu. apply Forall_app in Hnosu. tauto. }
+    unfold dec_on_encoder_recv. rewrite E1.
+    destruct (dt_total_inserted d1 =? dt_total_inserted (s_dec s)); cbn [fst]; [apply K|].
+    destruct (dt_total_inserted d1 <? dt_total_inserted (s_dec s)); cbn [fst]; [apply K|].
+    destruct (255 <? dt_total_inserted d1 - dt_total_inserted (s_dec s)); cbn [fst]; apply K.
+  - pose proof I as I0. destruct I as [He Hd Hu Hh Hc (d' & Ea & Hd' & Hu' & Hs') Hnosu Hsecs]. cbn [sys_step].
+    destruct (nth_opt (s_secs s) j) as [sec|]; cbn [fst]; [|assumption].
+    destruct (honest && sec_done sec); cbn [fst]; [assumption|].
+    destruct (honest && earlier_pending (s_secs s) j (sec_sid sec)); cbn [fst]; [assumption|].
+    destruct (dec_decode_header (s_dec s) (sec_block sec)) as [[fs dr]| |]; cbn [fst]; try assumption.
+    destruct honest; cbn [fst]; [|assumption].
+    constructor; cbn [s_enc s_dec s_eq s_secs]; try assumption; [exists d'; auto | apply mark_done_secs; assumption].
+  - pose proof I as I0. destruct I as [He Hd Hu Hh Hc (d' & Ea & Hd' & Hu' & Hs') Hnosu Hsecs]. cbn [sys_step].
+    pose proof (enc_on_decoder_recv_ok (firstn (N.to_nat k) (s_dq s)) (s_enc s) He) as Hok'.
+    pose proof (enc_on_decoder_recv_store (firstn (N.to_nat k) (s_dq s)) (s_enc s)) as St.
+    destruct (enc_on_decoder_recv (s_enc s) (firstn (N.to_nat k) (s_dq s))) as [t [u| |]]; cbn [fst] in *;
+      (constructor; cbn [s_enc s_dec s_eq s_secs]; try assumption;
+       [eapply hist_same_store; eassumption | destruct St as (_ & B & _); congruence |
+        exists d'; repeat (split; [assumption|]); eapply same_store_eq; eassumption]).
+  - pose proof I as I0. destruct I as [He Hd Hu Hh Hc (d' & Ea & Hd' & Hu' & Hs') Hnosu Hsecs]. cbn [sys_step fst].
+    constructor; cbn [s_enc s_dec s_eq s_secs]; try assumption; [exists d'; auto | apply cancel_stream_secs; assumption].
+Qed.
+
+Lemma sys_encode_inv cap H G s sid fs :
+  sys_inv cap H G s ->
+  exists t' e H' rs,
+    enc_encode (s_enc s) sid fs = (t', Ok e) /\ (exists x, H' = H ++ x) /\
+    sys_inv cap H' (G ++ [rs]) (fst (sys_step s (OEncode sid fs))) /\
+    nodup_keys rs /\ (forall a c, aget N.eqb a rs = Some c -> 0 < c) /\
+    (forall a, cnt a (dt_track t') = cnt a (dt_track (s_enc s)) + cnt a rs) /\
+    dt_blocks t' = dt_blocks (dt_track_block (s_enc s) sid rs) /\
+    (forall a, v_inserted (dt_vas (s_enc s)) < a -> a <= v_inserted (dt_vas t') -> 0 < cnt a rs /\ a <= en_required e) /\
+    v_inserted (dt_vas (s_enc s)) <= v_inserted (dt_vas t').
+Proof.
+  intros I. destruct I as [He Hd Hu Hh Hc (d' & Ea & Hd' & Hu' & Hs') Hnosu Hsecs].
+  destruct (enc_encode_spec (s_enc s) sid fs H d' He Hh Hd' Hu' Hs') as
+    (t' & e & H' & d'' & Ee & (x & Hx) & Hok' & Hh' & Hm' & Ea' & Hd'' & Hu'' & Hs'' & (rs & Hden & R1 & R2 & R3 & R4 & _ & _ & R7)).
+  exists t', e, H', rs. split; [assumption|]. split; [exists x; assumption|]. cbn [sys_step]. rewrite Ee. cbn [fst].
+  split.
+  - constructor; cbn [s_enc s_dec s_eq s_secs]; try assumption.
+    + congruence.
+    + exists d''. rewrite dec_apply_app, Ea. auto.
+    + apply Forall_app. split; [assumption | eapply enc_encode_no_su; eassumption].
+    + apply Forall2_app.
+      * subst H'. eapply Forall2_impl; [|eassumption]. intros sec r0 Hs0. apply sec_den_app. assumption.
+      * constructor; [|constructor]. unfold sec_ok; cbn [sec_required sec_block sec_fields]. rewrite <- Hc. assumption.
+  - repeat (split; [assumption|]).
+    destruct Hh as [L1 _], Hh' as [L2 _]. rewrite L1, L2. subst H'. rewrite app_length. lia.
+Qed.
+
+(* ---------------------------------------------------------------- list surgery for "section j becomes done" *)
+Lemma nth_opt_split_sec : forall (l : list section) j x sid,
+  nth_opt l j = Some x ->
+  exists l1 l2, l = l1 ++ x :: l2 /\ mark_done l j = l1 ++ sec_set_done x :: l2 /\
+    (earlier_pending l j sid = false -> forall y, In y l1 -> sec_sid y = sid -> sec_done y = true).
+Proof.
+  induction l as [|y l IH]; intros j x sid; cbn [nth_opt mark_done earlier_pending]; [discriminate|].
+  destruct (j =? 0) eqn:E.
+  - intros H; inversion H; subst. exists [], l. repeat split. intros _ z [].
+  - intros H. destruct (IH (j - 1) x sid H) as (l1 & l2 & E1 & E2 & E3).
+    exists (y :: l1), l2. cbn [app]. rewrite E1 at 1. rewrite E2. repeat split.
+    intros Hep z [<- | Hz] Hs.
+    + apply orb_false_iff in Hep. destruct Hep as [Hep _]. rewrite Hs, N.eqb_refl in Hep. cbn [andb] in Hep.
+      destruct (sec_done y); [reflexivity | discriminate].
+    + apply orb_false_iff in Hep. destruct Hep as [_ Hep]. apply E3; assumption.
+Qed.
+
+Lemma map_split {A B} (f : A -> B) : forall xs l1 y l2, map f xs = l1 ++ y :: l2 ->
+  exists xs1 x xs2, xs = xs1 ++ x :: xs2 /\ map f xs1 = l1 /\ f x = y /\ map f xs2 = l2.
+Proof.
+  induction xs as [|x xs IH]; intros l1 y l2 H; [destruct l1; discriminate|].
+  destruct l1 as [|z l1]; cbn [map app] in H; inversion H; subst.
+  - exists [], x, xs. auto.
+  - destruct (IH _ _ _ H2) as (xs1 & x' & xs2 & E1 & E2 & E3 & E4). exists (x :: xs1), x', xs2. subst. auto.
+Qed.
+
+Lemma dp_all_notdone l : Forall (fun y => g_done y = false) l -> done_prefix l.
+Proof. destruct l; cbn [done_prefix]; auto. Qed.
+
+Lemma dp_tail x l : done_prefix (x :: l) -> done_prefix l.
+Proof. cbn [done_prefix]. intros [[_ H] | H]; [assumption|]. inversion H; subst. apply dp_all_notdone. assumption. Qed.
+
+Lemma dp_app_done a b : Forall (fun y => g_done y = true) a -> (done_prefix (a ++ b) <-> done_prefix b).
+Proof.
+  induction a as [|x a IH]; intros F; cbn [app]; [tauto|]. inversion F; subst. cbn [done_prefix]. split.
+  - intros [[_ H] | H]; [apply IH; assumption|]. inversion H; subst. congruence.
+  - intros H. left. split; [assumption | apply IH; assumption].
+Qed.
+
+Lemma ndone_all_done_app a b : ndone (a ++ b) = ndone a + ndone b.
+Proof. apply ndone_app. Qed.
+
+Definition g_set_done (x : gsec) : gsec := mkG (sec_set_done (g_sec x)) (g_rs x) (g_popped x).
+
+Lemma np_cons sid x r : np sid (x :: r) = (if (g_sid x =? sid) && negb (g_popped x) then [x] else []) ++ np sid r.
+Proof. cbn [np filter]. destruct ((g_sid x =? sid) && negb (g_popped x)); reflexivity. Qed.
+
+Lemma np_all_done sid l : (forall y, In y l -> g_sid y = sid -> g_done y = true) -> Forall (fun y => g_done y = true) (np sid l).
+Proof.
+  intros H. apply Forall_forall. intros y Hy. apply np_In in Hy. destruct Hy as (A & B & _). auto.
+Qed.
+
+Lemma tot_set_done a xs1 x xs2 : tot a (xs1 ++ g_set_done x :: xs2) = tot a (xs1 ++ x :: xs2).
+Proof. rewrite !tot_app. cbn [tot g_set_done g_popped g_rs]. reflexivity. Qed.
+
+Lemma qof_set_done sid xs1 x xs2 : qof sid (xs1 ++ g_set_done x :: xs2) = qof sid (xs1 ++ x :: xs2).
+Proof.
+  unfold qof. rewrite !np_app, !np_cons, !map_app. f_equal. f_equal.
+  unfold g_set_done, g_sid; cbn [g_sec g_popped sec_set_done sec_sid].
+  destruct ((sec_sid (g_sec x) =? sid) && negb (g_popped x)); reflexivity.
+Qed.
+
+(* ---------------------------------------------------------------- the full invariant *)
+Record full_inv (cap : N) (H : list field) (xs : list gsec) (s : sys) : Prop := mk_full_inv {
+  fi_sys : sys_inv cap H (map g_rs xs) s;
+  fi_secs : s_secs s = map g_sec xs;
+  fi_acct : enc_acct (s_enc s) xs;
+  fi_acks : acks_ok xs (s_dq s);
+  fi_nc : Forall no_cancel (s_dq s);
+  fi_oi : forall a, v_inserted (dt_vas (s_dec s)) < a -> a <= v_inserted (dt_vas (s_enc s)) ->
+            exists x, In x xs /\ g_done x = false /\ 0 < cnt a (g_rs x) /\ a <= sec_required (g_sec x);
+  fi_done : forall x, In x xs -> g_done x = true -> sec_required (g_sec x) <= v_inserted (dt_vas (s_dec s))
+}.
+
+(* a section whose references are still held has its entries in the encoder's table *)
+Lemma held_live t xs x a : dt_ok t -> enc_acct t xs -> In x xs -> g_popped x = false -> 0 < cnt a (g_rs x) -> vas_live (dt_vas t) a.
+Proof.
+  intros Hok A Hin Hp Hc. apply cnt_pos_live; [assumption|]. rewrite (ea_tot _ _ A). pose proof (tot_ge a xs x Hin Hp). lia.
+Qed.
+
+Lemma not_done_not_popped t xs x : enc_acct t xs -> In x xs -> g_done x = false -> g_popped x = false.
+Proof.
+  intros A Hin Hd. destruct (g_popped x) eqn:E; [|reflexivity]. rewrite (ea_pd _ _ A x Hin E) in Hd. discriminate.
+Qed.
+
+(* the encoder has not evicted anything the decoder has not received *)
+Lemma full_inv_oi cap H xs s : full_inv cap H xs s -> v_dropped (dt_vas (s_enc s)) <= v_inserted (dt_vas (s_dec s)).
+Proof.
+  intros F. destruct (N.le_gt_cases (v_dropped (dt_vas (s_enc s))) (v_inserted (dt_vas (s_dec s)))) as [|Hgt]; [assumption|].
+  exfalso. pose proof (si_enc _ _ _ _ (fi_sys _ _ _ _ F)) as He. pose proof (ok_vas _ He) as Hv. unfold vas_inv in Hv.
+  destruct (fi_oi _ _ _ _ F (v_inserted (dt_vas (s_dec s)) + 1)) as (x & Hin & Hd & Hc & _); [lia | lia|].
+  pose proof (not_done_not_popped _ _ _ (fi_acct _ _ _ _ F) Hin Hd) as Hp.
+  pose proof (held_live _ _ _ _ He (fi_acct _ _ _ _ F) Hin Hp Hc) as Hl. unfold vas_live in Hl. lia.
+Qed.
+
+(* the indices read off a section's wire form are keys of its committed block *)
+Lemma sec_indices_cnt H cap sec rs a :
+  sec_ok H cap sec rs -> N.of_nat (length H) < 2 ^ 62 -> cap < 2 ^ 62 -> In a (sec_indices cap sec) -> 0 < cnt a rs.
+Proof.
+  intros (base & total & Hnew & Hrt & Htot & Hbt & Hcap32 & F2 & Hidx & Hreq) Hlim Hcl Hin.
+  set (r := sec_required sec) in *.
+  destruct (N.eq_dec r 0) as [Hr0 | Hrpos].
+  - exfalso. rewrite Hr0 in *. pose proof (hp_roundtrip_zero base total 0 cap) as [Z1 Z2].
+    assert (Hp : fst (sec_block sec) = hp_zero) by congruence.
+    unfold sec_indices in Hin. fold r in Hin. rewrite Hr0, Hp, Z2 in Hin. cbn [N.ltb] in Hin.
+    replace (0 <? 0) with false in Hin by reflexivity. rewrite app_nil_r in Hin.
+    apply in_flat_map in Hin. destruct Hin as (rep & Hrep & Ha).
+    destruct rep; cbn [rep_idx] in Ha; try contradiction;
+      match goal with |- _ => let K := fresh in pose proof (Hidx _ _ Hrep eq_refl) as K; cbn [rep_idx] in K; lia end.
+  - assert (P1 : 32 <= cap) by (apply Hcap32; lia).
+    assert (Q0 : 0 < max_entries cap) by (unfold max_entries; lia).
+    assert (P4 : r + 4 * max_entries cap + r < usize_lim) by (unfold usize_lim, max_entries in *; lia).
+    assert (P5 : base < usize_lim) by (unfold usize_lim; lia).
+    destruct (hp_roundtrip r base total r cap P1 ltac:(lia) Hrt ltac:(lia) ltac:(lia) P4 P5) as (p & Hp1 & Hp2 & _).
+    assert (Hp : fst (sec_block sec) = p) by congruence.
+    unfold sec_indices in Hin. fold r in Hin. rewrite Hp, Hp2 in Hin. apply in_app_or in Hin. destruct Hin as [Hin | Hin].
+    + apply in_flat_map in Hin. destruct Hin as (rep & Hrep & Ha).
+      destruct (rep_idx base rep) as [a'|] eqn:Er; [|contradiction]. destruct Ha as [<- | []].
+      destruct (Hidx rep a' Hrep Er) as (_ & _ & C). exact C.
+    + destruct (0 <? r); [|contradiction]. destruct Hin as [<- | []]. destruct Hreq; [contradiction | assumption].
+Qed.
+
+(* ---------------------------------------------------------------- preservation *)
+Lemma sys_init_shape cap blocked s : sys_init cap blocked = Some s ->
+  s = mkSys (with_bmax (with_max dt_new cap) blocked) (with_bmax (with_max dt_new cap) blocked) [] [] [].
+Proof.
+  unfold sys_init, dt_set_max_size. destruct (cmp_eval q_set_max_size_cmp cap q_cap_max); [discriminate|].
+  cbn [dt_new dt_max]. destruct (0 <=? cap) eqn:E; [|lia].
+  unfold dt_set_max_blocked. destruct (cmp_eval q_set_max_blocked_cmp blocked q_blocked_streams_max); [discriminate|].
+  intros H; inversion H; reflexivity.
+Qed.
+
+Lemma full_inv_init cap blocked s : sys_init cap blocked = Some s -> full_inv cap [] [] s.
+Proof.
+  intros Hi. pose proof (sys_init_inv _ _ _ Hi) as I. pose proof (sys_init_shape _ _ _ Hi) as ->.
+  constructor; cbn [s_enc s_dec s_dq s_secs map]; try assumption; try reflexivity.
+  - constructor.
+    + intros a. reflexivity.
+    + constructor.
+    + intros sid. reflexivity.
+    + intros x [].
+    + intros x [].
+    + intros sid. exact Logic.I.
+  - intros sid. cbn. lia.
+  - constructor.
+  - intros a H1 H2. cbn in H1, H2. lia.
+  - intros x [].
+Qed.
+
+Lemma secrs_In xs xs' x : secrs xs' = secrs xs -> In x xs -> exists x', In x' xs' /\ g_sec x' = g_sec x /\ g_rs x' = g_rs x.
+Proof.
+  intros E Hin. assert (K : In (g_sec x, g_rs x) (secrs xs)) by (unfold secrs; apply in_map_iff; exists x; auto).
+  rewrite <- E in K. unfold secrs in K. apply in_map_iff in K. destruct K as (x' & E' & Hin'). inversion E'. exists x'. auto.
+Qed.
+
+Lemma secrs_maps xs xs' : secrs xs' = secrs xs -> map g_sec xs' = map g_sec xs /\ map g_rs xs' = map g_rs xs.
+Proof.
+  revert xs'. induction xs as [|x r IH]; intros [|y r'] E; try discriminate; [auto|].
+  cbn [secrs map] in E. inversion E. destruct (IH r' H2) as [A B]. cbn [map]. split; congruence.
+Qed.
+
+(* Encoder::encode *)
+Lemma full_inv_encode cap H xs s sid fs :
+  full_inv cap H xs s -> exists H' xs', full_inv cap H' xs' (fst (sys_step s (OEncode sid fs))).
+Proof.
+  intros F. pose proof F as F0. destruct F as [I Hsecs A Hacks Hnc Hoi Hdone].
+  destruct (sys_encode_inv cap H (map g_rs xs) s sid fs I) as (t' & e & H' & rs & Ee & _ & I' & R1 & R2 & R3 & R4 & R7 & Hmono).
+  cbn [sys_step] in *. rewrite Ee in *. cbn [fst] in *.
+  set (sec := mkSection sid (en_block e) fs (en_required e) false) in *.
+  set (x := mkG sec rs false).
+  exists H', (xs ++ [x]).
+  assert (Hnpx : forall s0, np s0 (xs ++ [x]) = np s0 xs ++ (if sid =? s0 then [x] else [])).
+  { intros s0. rewrite np_app. f_equal. cbn [np filter x g_sid g_sec sec sec_sid g_popped negb]. rewrite andb_true_r.
+    destruct (sid =? s0); reflexivity. }
+  constructor; cbn [s_enc s_dec s_dq s_secs].
+  - rewrite map_app. exact I'.
+  - rewrite map_app, Hsecs. reflexivity.
+  - destruct A as [Atot And Abl Ars Apd Adp]. constructor.
+    + intros a. rewrite R3, Atot, tot_app. cbn [tot x g_popped g_rs]. lia.
+    + rewrite R4. unfold dt_track_block. destruct (aget N.eqb sid (dt_blocks (s_enc s))); cbn [with_blocks dt_blocks];
+        apply (nodup_aset N.eqb Neqb_eq'); assumption.
+    + intros s0. rewrite R4. unfold qof. rewrite Hnpx, map_app. unfold dt_track_block.
+      destruct (N.eq_dec s0 sid) as [->|Hne].
+      * rewrite N.eqb_refl. cbn [map x g_rs]. pose proof (Abl sid) as Hb. unfold qof in Hb.
+        destruct (aget N.eqb sid (dt_blocks (s_enc s))) as [q|] eqn:Eq; cbn [with_blocks dt_blocks];
+          rewrite (aget_aset_same N.eqb Neqb_eq').
+        -- destruct (map g_rs (np sid xs)) as [|q0 qr]; [discriminate|]. inversion Hb; subst. reflexivity.
+        -- destruct (map g_rs (np sid xs)) as [|q0 qr]; [reflexivity | discriminate].
+      * destruct (sid =? s0) eqn:E0; [apply N.eqb_eq in E0; congruence|]. cbn [map]. rewrite app_nil_r.
+        destruct (aget N.eqb sid (dt_blocks (s_enc s))); cbn [with_blocks dt_blocks];
+          rewrite (aget_aset_other N.eqb Neqb_eq') by assumption; apply Abl.
+    + intros y Hy. apply in_app_or in Hy. destruct Hy as [Hy | [<- | []]]; [auto | cbn [x g_rs]; auto].
+    + intros y Hy Hp. apply in_app_or in Hy. destruct Hy as [Hy | [<- | []]]; [auto | discriminate].
+    + intros s0. rewrite Hnpx. destruct (sid =? s0); [apply done_prefix_snoc; [apply Adp | reflexivity] | rewrite app_nil_r; apply Adp].
+  - intros s0. rewrite Hnpx, ndone_app. specialize (Hacks s0). destruct (sid =? s0); cbn [ndone x g_done g_sec sec sec_done]; lia.
+  - assumption.
+  - intros a H1 H2. destruct (N.le_gt_cases a (v_inserted (dt_vas (s_enc s)))) as [Hle | Hgt].
+    + destruct (Hoi a H1 Hle) as (y & Hy & K). exists y. split; [apply in_or_app; left; assumption | assumption].
+    + destruct (R7 a Hgt H2) as [C1 C2]. exists x. split; [apply in_or_app; right; left; reflexivity|].
+      cbn [x g_done g_sec sec sec_done g_rs sec_required]. auto.
+  - intros y Hy Hd. apply in_app_or in Hy. destruct Hy as [Hy | [<- | []]]; [auto | discriminate].
+Qed.
+
+(* delivery of encoder-stream instructions *)
+Lemma deliver_shape s k :
+  exists inc, fst (sys_step s (ODeliver k)) =
+    mkSys (s_enc s) (fst (dec_apply (s_dec s) (firstn (N.to_nat k) (s_eq s)))) (skipn (N.to_nat k) (s_eq s))
+          (s_dq s ++ match inc with Some n => [DIncrement n] | None => [] end) (s_secs s).
+Proof.
+  cbn [sys_step]. unfold dec_on_encoder_recv.
+  destruct (dec_apply (s_dec s) (firstn (N.to_nat k) (s_eq s))) as [t1 [u| |]]; cbn [fst];
+    try (exists None; rewrite app_nil_r; reflexivity).
+  destruct (dt_total_inserted t1 =? dt_total_inserted (s_dec s)); cbn [fst]; [exists None; rewrite app_nil_r; reflexivity|].
+  destruct (dt_total_inserted t1 <? dt_total_inserted (s_dec s)); cbn [fst]; [exists None; rewrite app_nil_r; reflexivity|].
+  destruct (255 <? dt_total_inserted t1 - dt_total_inserted (s_dec s)); cbn [fst]; [exists None; rewrite app_nil_r; reflexivity|].
+  eexists (Some _). reflexivity.
+Qed.
+
+Lemma nacks_incr sid l inc : nacks sid (l ++ match inc with Some n => [DIncrement n] | None => [] end) = nacks sid l.
+Proof. rewrite nacks_app. destruct inc; cbn [nacks is_ack]; lia. Qed.
+
+Lemma full_inv_deliver cap H xs s k : full_inv cap H xs s -> full_inv cap H xs (fst (sys_step s (ODeliver k))).
+Proof.
+  intros F. pose proof (sys_step_inv_same cap H (map g_rs xs) s (ODeliver k) (fi_sys _ _ _ _ F) I) as I'.
+  destruct F as [I0 Hsecs A Hacks Hnc Hoi Hdone].
+  destruct (deliver_shape s k) as (inc & E). rewrite E in *.
+  assert (Hmono : v_inserted (dt_vas (s_dec s)) <= v_inserted (dt_vas (fst (dec_apply (s_dec s) (firstn (N.to_nat k) (s_eq s)))))).
+  { destruct I0 as [He Hd Hu Hh Hc (d' & Ea & Hd' & Hu' & Hs') Hnosu Hsecs0].
+    rewrite <- (firstn_skipn (N.to_nat k) (s_eq s)) in Ea. apply dec_apply_split in Ea. destruct Ea as (d1 & E1 & E2). rewrite E1. cbn [fst].
+    rewrite <- (firstn_skipn (N.to_nat k) (s_eq s)) in Hnosu. apply Forall_app in Hnosu. destruct Hnosu as [Hn1 _].
+    destruct (dec_apply_ext _ _ _ Hd Hu Hn1 E1) as (X & _). exact X. }
+  constructor; cbn [s_enc s_dec s_dq s_secs] in *; try assumption.
+  - intros sid. rewrite nacks_incr. apply Hacks.
+  - apply Forall_app. split; [assumption|]. destruct inc; constructor; [exact Logic.I | constructor].
+  - intros a H1 H2. apply Hoi; lia.
+  - intros x Hx Hd. specialize (Hdone x Hx Hd). lia.
+Qed.
+
+(* feedback: acknowledgements and increments reach the encoder *)
+Lemma full_inv_feedback cap H xs s k : full_inv cap H xs s -> exists xs', full_inv cap H xs' (fst (sys_step s (OFeedback k))).
+Proof.
+  intros F. pose proof (sys_step_inv_same cap H (map g_rs xs) s (OFeedback k) (fi_sys _ _ _ _ F) I) as I'.
+  destruct F as [I0 Hsecs A Hacks Hnc Hoi Hdone].
+  set (now := firstn (N.to_nat k) (s_dq s)) in *. set (later := skipn (N.to_nat k) (s_dq s)) in *.
+  assert (Edq : s_dq s = now ++ later) by (symmetry; apply firstn_skipn).
+  assert (Hnc2 : Forall no_cancel now /\ Forall no_cancel later) by (rewrite Edq in Hnc; apply Forall_app in Hnc; exact Hnc).
+  destruct (feedback_acct now (s_enc s) xs later (si_enc _ _ _ _ I0) A ltac:(rewrite <- Edq; exact Hacks) (proj1 Hnc2)) as (xs' & A' & Hacks' & Esr).
+  destruct (secrs_maps _ _ Esr) as [Ms Mr].
+  pose proof (enc_on_decoder_recv_store now (s_enc s)) as (_ & _ & Vs).
+  assert (Eshape : fst (sys_step s (OFeedback k)) = mkSys (fst (enc_on_decoder_recv (s_enc s) now)) (s_dec s) (s_eq s) later (s_secs s)).
+  { cbn [sys_step]. fold now later. destruct (enc_on_decoder_recv (s_enc s) now) as [t [u| |]]; reflexivity. }
+  rewrite Eshape in *. exists xs'.
+  constructor; cbn [s_enc s_dec s_dq s_secs] in *.
+  - rewrite Mr. exact I'.
+  - rewrite Ms. exact Hsecs.
+  - exact A'.
+  - exact Hacks'.
+  - exact (proj2 Hnc2).
+  - intros a H1 H2. rewrite Vs in H2. destruct (Hoi a H1 H2) as (x & Hx & Hd & Hc & Hr).
+    destruct (secrs_In xs xs' x Esr Hx) as (x' & Hx' & E1 & E2). exists x'. unfold g_done. rewrite E1, E2. auto.
+  - intros x' Hx' Hd. symmetry in Esr. destruct (secrs_In xs' xs x' Esr Hx') as (x & Hx & E1 & E2).
+    rewrite <- E1. apply Hdone; [assumption|]. unfold g_done in *. rewrite E1. exact Hd.
+Qed.
+
+Lemma Forall2_map_In {A B C} (P : B -> C -> Prop) (f : A -> B) (g : A -> C) xs :
+  Forall2 P (map f xs) (map g xs) -> forall x, In x xs -> P (f x) (g x).
+Proof.
+  induction xs as [|y r IH]; cbn [map]; intros F x []; inversion F; subst; auto.
+Qed.
+
+(* every section that is not done decodes as the statement demands *)
+Lemma full_inv_decode_result cap H xs s x :
+  full_inv cap H xs s -> In x xs -> g_done x = false ->
+  v_inserted (dt_vas (s_enc s)) < 2 ^ 62 -> cap < 2 ^ 62 -> forall j, nth_error (s_secs s) j = Some (g_sec x) ->
+  dec_decode_header (s_dec s) (sec_block (g_sec x)) =
+    if v_inserted (dt_vas (s_dec s)) <? sec_required (g_sec x) then Err (DEMissingRefs (sec_required (g_sec x)))
+    else Ok (sec_fields (g_sec x), 0 <? sec_required (g_sec x)).
+Proof.
+  intros F Hin Hd Hlim Hcl j Hj. pose proof (full_inv_oi _ _ _ _ F) as HOI.
+  destruct F as [I Hsecs A Hacks Hnc Hoi Hdone].
+  pose proof (si_secs _ _ _ _ I) as Hs2. rewrite Hsecs in Hs2.
+  pose proof (Forall2_map_In _ _ _ _ Hs2 x Hin) as Hso.
+  pose proof (not_done_not_popped _ _ _ A Hin Hd) as Hp.
+  eapply decode_agrees; try eassumption.
+  intros a Ha. eapply held_live; try eassumption; [apply (si_enc _ _ _ _ I)|].
+  eapply sec_indices_cnt; try eassumption. destruct (si_hist _ _ _ _ I) as [L _]. rewrite <- L. assumption.
+Qed.
+
+Lemma nth_error_mid {A} (l1 : list A) x l2 : nth_error (l1 ++ x :: l2) (length l1) = Some x.
+Proof. induction l1 as [|y l1 IH]; cbn [app length nth_error]; auto. Qed.
+
+Lemma full_inv_decode cap H xs s j honest :
+  full_inv cap H xs s -> v_inserted (dt_vas (s_enc s)) < 2 ^ 62 -> cap < 2 ^ 62 ->
+  exists xs', full_inv cap H xs' (fst (sys_step s (ODecode j honest))).
+Proof.
+  intros F Hlim Hcl. cbn [sys_step].
+  destruct (nth_opt (s_secs s) j) as [sec|] eqn:Enth; cbn [fst]; [|exists xs; assumption].
+  destruct (honest && sec_done sec) eqn:E1; cbn [fst]; [exists xs; assumption|].
+  destruct (honest && earlier_pending (s_secs s) j (sec_sid sec)) eqn:E2; cbn [fst]; [exists xs; assumption|].
+  destruct (dec_decode_header (s_dec s) (sec_block sec)) as [[fs dr]| |] eqn:Edec; cbn [fst]; try (exists xs; assumption).
+  destruct honest; cbn [fst]; [|exists xs; assumption].
+  cbn [andb] in E1, E2.
+  destruct (nth_opt_split_sec (s_secs s) j sec (sec_sid sec) Enth) as (l1 & l2 & El & Em & Eearly).
+  specialize (Eearly E2).
+  pose proof (fi_secs _ _ _ _ F) as Hsecs. rewrite El in Hsecs.
+  destruct (map_split g_sec xs l1 sec l2 (eq_sym Hsecs)) as (xs1 & gx & xs2 & Exs & M1 & M2 & M3).
+  assert (Hin : In gx xs) by (rewrite Exs; apply in_or_app; right; left; reflexivity).
+  assert (Hgd : g_done gx = false) by (unfold g_done; rewrite M2; exact E1).
+  (* the decoder's answer *)
+  pose proof (full_inv_decode_result cap H xs s gx F Hin Hgd Hlim Hcl (length l1)) as Hres.
+  rewrite M2 in Hres. rewrite El in Hres. specialize (Hres (nth_error_mid l1 sec l2)). rewrite Edec in Hres.
+  destruct (v_inserted (dt_vas (s_dec s)) <? sec_required sec) eqn:Eblk; [discriminate|].
+  inversion Hres; subst fs dr. clear Hres.
+  pose proof F as F0. destruct F as [I Hsecs0 A Hacks Hnc Hoi Hdone].
+  pose proof (not_done_not_popped _ _ _ A Hin Hgd) as Hpop.
+  set (xs' := xs1 ++ g_set_done gx :: xs2).
+  assert (Hrs : map g_rs xs' = map g_rs xs) by (unfold xs'; rewrite Exs, !map_app; reflexivity).
+  assert (Hnp : forall sid, np sid xs' = np sid xs1 ++ (if (g_sid gx =? sid) && negb (g_popped gx) then [g_set_done gx] else []) ++ np sid xs2).
+  { intros sid. unfold xs'. rewrite np_app, np_cons. reflexivity. }
+  assert (Hnp0 : forall sid, np sid xs = np sid xs1 ++ (if (g_sid gx =? sid) && negb (g_popped gx) then [gx] else []) ++ np sid xs2).
+  { intros sid. rewrite Exs, np_app, np_cons. reflexivity. }
+  assert (Hearly : forall y, In y xs1 -> g_sid y = g_sid gx -> g_done y = true).
+  { intros y Hy Hs. unfold g_done, g_sid in *. apply Eearly; [rewrite <- M1; apply in_map; assumption | rewrite Hs, M2; reflexivity]. }
+  exists xs'.
+  pose proof (sys_step_inv_same cap H (map g_rs xs) s (ODecode j true) I Logic.I) as I'.
+  cbn [sys_step] in I'. rewrite Enth in I'. cbn [andb] in I'. rewrite E1, E2, Edec in I'. cbn [fst] in I'.
+  constructor; cbn [s_enc s_dec s_dq s_secs].
+  - rewrite Hrs. exact I'.
+  - rewrite Em. unfold xs'. rewrite map_app. cbn [map g_set_done g_sec]. rewrite M1, M2, M3. reflexivity.
+  - destruct A as [Atot And Abl Ars Apd Adp]. constructor.
+    + intros a. rewrite Atot, Exs. unfold xs'. symmetry. apply tot_set_done.
+    + assumption.
+    + intros sid. rewrite Abl, Exs. unfold xs'. rewrite qof_set_done. reflexivity.
+    + intros y Hy. unfold xs' in Hy. apply in_app_or in Hy. destruct Hy as [Hy | [<- | Hy]].
+      * apply Ars. rewrite Exs. apply in_or_app. left. assumption.
+      * cbn [g_set_done g_rs]. apply Ars. assumption.
+      * apply Ars. rewrite Exs. apply in_or_app. right. right. assumption.
+    + intros y Hy Hp. unfold xs' in Hy. apply in_app_or in Hy. destruct Hy as [Hy | [<- | Hy]].
+      * apply Apd; [rewrite Exs; apply in_or_app; left; assumption | assumption].
+      * reflexivity.
+      * apply Apd; [rewrite Exs; apply in_or_app; right; right; assumption | assumption].
+    + intros sid. specialize (Adp sid). rewrite Hnp0 in Adp. rewrite Hnp.
+      destruct ((g_sid gx =? sid) && negb (g_popped gx)) eqn:Eg; [|exact Adp].
+      apply andb_true_iff in Eg. destruct Eg as [Eg _]. apply N.eqb_eq in Eg.
+      assert (Fd : Forall (fun y => g_done y = true) (np sid xs1)) by (apply np_all_done; intros y Hy Hs; apply Hearly; [assumption | congruence]).
+      apply (proj2 (dp_app_done _ _ Fd)). apply (proj1 (dp_app_done _ _ Fd)) in Adp. cbn [app] in *. cbn [done_prefix]. left.
+      split; [reflexivity | eapply dp_tail; exact Adp].
+  - intros sid. specialize (Hacks sid). rewrite nacks_app, Hnp. rewrite Hnp0 in Hacks. rewrite !ndone_app in *.
+    rewrite Hpop in *. cbn [negb] in *. rewrite andb_true_r in *.
+    destruct (g_sid gx =? sid) eqn:Eg.
+    + cbn [ndone app] in *. rewrite Hgd in Hacks. cbn [g_done g_set_done g_sec sec_set_done sec_done].
+      apply N.eqb_eq in Eg. unfold g_sid in Eg. rewrite M2 in Eg.
+      destruct (0 <? sec_required sec); cbn [nacks is_ack]; [rewrite Eg, N.eqb_refl|]; lia.
+    + cbn [ndone app] in *. destruct (0 <? sec_required sec); cbn [nacks is_ack]; [|lia].
+      unfold g_sid in Eg. rewrite M2 in Eg. rewrite Eg. lia.
+  - apply Forall_app. split; [assumption|]. destruct (0 <? sec_required sec); constructor; [exact Logic.I | constructor].
+  - intros a H1 H2. destruct (Hoi a H1 H2) as (y & Hy & Hyd & Hyc & Hyr).
+    rewrite Exs in Hy. apply in_app_or in Hy. destruct Hy as [Hy | [<- | Hy]].
+    + exists y. split; [unfold xs'; apply in_or_app; left; assumption | auto].
+    + exfalso. rewrite M2 in Hyr. lia.
+    + exists y. split; [unfold xs'; apply in_or_app; right; right; assumption | auto].
+  - intros y Hy Hd. unfold xs' in Hy. apply in_app_or in Hy. destruct Hy as [Hy | [<- | Hy]].
+    + apply Hdone; [rewrite Exs; apply in_or_app; left; assumption | assumption].
+    + cbn [g_set_done g_sec sec_set_done sec_required]. rewrite M2. lia.
+    + apply Hdone; [rewrite Exs; apply in_or_app; right; right; assumption | assumption].
+Qed.
+
+(* ---------------------------------------------------------------- whole histories *)
+Definition honest_op (o : op) : bool :=
+  match o with OEncode _ _ | ODeliver _ | ODecode _ _ | OFeedback _ => true | OCancel _ | OResize _ => false end.
+
+Lemma honest_not_resize os : forallb honest_op os = true -> existsb is_resize os = false.
+Proof.
+  induction os as [|o r IH]; [reflexivity|]. cbn [forallb existsb]. intros H. apply andb_true_iff in H. destruct H as [H1 H2].
+  rewrite (IH H2). destruct o; try discriminate; reflexivity.
+Qed.
+
+Lemma step_ins_mono cap H G s o :
+  sys_inv cap H G s -> is_resize o = false -> v_inserted (dt_vas (s_enc s)) <= v_inserted (dt_vas (s_enc (fst (sys_step s o)))).
+Proof.
+  intros I Hr. destruct o as [sid fs|k|j honest|k|sid|n]; try discriminate.
+  - destruct (sys_encode_inv cap H G s sid fs I) as (t' & e & H' & rs & Ee & _ & _ & _ & _ & _ & _ & _ & Hm).
+    cbn [sys_step]. rewrite Ee. cbn [fst s_enc]. exact Hm.
+  - destruct (deliver_shape s k) as (inc & E). rewrite E. cbn [s_enc]. lia.
+  - cbn [sys_step]. destruct (nth_opt (s_secs s) j) as [sec|]; cbn [fst]; [|lia].
+    destruct (honest && sec_done sec); cbn [fst]; [lia|].
+    destruct (honest && earlier_pending (s_secs s) j (sec_sid sec)); cbn [fst]; [lia|].
+    destruct (dec_decode_header (s_dec s) (sec_block sec)) as [[fs dr]| |]; cbn [fst]; try lia.
+    destruct honest; cbn [fst s_enc]; lia.
+  - pose proof (enc_on_decoder_recv_store (firstn (N.to_nat k) (s_dq s)) (s_enc s)) as (_ & _ & V).
+    cbn [sys_step]. destruct (enc_on_decoder_recv (s_enc s) (firstn (N.to_nat k) (s_dq s))) as [t [u| |]]; cbn [fst s_enc] in *; rewrite V; lia.
+  - cbn [sys_step fst s_enc]. lia.
+Qed.
+
+Lemma run_ins_mono cap os : forall H G s,
+  sys_inv cap H G s -> existsb is_resize os = false ->
+  v_inserted (dt_vas (s_enc s)) <= v_inserted (dt_vas (s_enc (fst (sys_run s os)))).
+Proof.
+  induction os as [|o r IH]; intros H G s I Hnr; [cbn [sys_run fst]; lia|].
+  cbn [existsb] in Hnr. apply orb_false_iff in Hnr. destruct Hnr as [H1 H2].
+  rewrite sys_run_fst. destruct (sys_step_inv cap H G s o I H1) as (H' & G' & I' & _).
+  pose proof (step_ins_mono cap H G s o I H1). pose proof (IH H' G' _ I' H2). lia.
+Qed.
+
+Theorem run_full_inv cap os : forall H xs s,
+  full_inv cap H xs s -> forallb honest_op os = true -> cap < 2 ^ 62 ->
+  v_inserted (dt_vas (s_enc (fst (sys_run s os)))) < 2 ^ 62 ->
+  exists H' xs', full_inv cap H' xs' (fst (sys_run s os)).
+Proof.
+  induction os as [|o r IH]; intros H xs s F Hh Hcl Hlim; [exists H, xs; assumption|].
+  cbn [forallb] in Hh. apply andb_true_iff in Hh. destruct Hh as [Ho Hr].
+  rewrite sys_run_fst in *.
+  assert (Hnr : existsb is_resize (o :: r) = false) by (apply honest_not_resize; cbn [forallb]; rewrite Ho, Hr; reflexivity).
+  pose proof (run_ins_mono cap (o :: r) H (map g_rs xs) s (fi_sys _ _ _ _ F) Hnr) as Hm. rewrite sys_run_fst in Hm.
+  assert (Hs1 : exists H1 xs1, full_inv cap H1 xs1 (fst (sys_step s o))).
+  { destruct o as [sid fs|k|j honest|k|sid|n]; try discriminate.
+    - eapply full_inv_encode; eassumption.
+    - exists H, xs. apply full_inv_deliver; assumption.
+    - destruct (full_inv_decode cap H xs s j honest F ltac:(lia) Hcl) as (xs1 & F1). exists H, xs1. assumption.
+    - destruct (full_inv_feedback cap H xs s k F) as (xs1 & F1). exists H, xs1. assumption. }
+  destruct Hs1 as (H1 & xs1 & F1). eapply IH; eassumption.
+Qed.
+
+(* T4, full strength for histories of encodes, deliveries, decodes (honest or bare) and feedback deliveries *)
+Theorem sys_agreement :
+  forall cap blocked s os s' j sec,
+    sys_init cap blocked = Some s -> forallb honest_op os = true -> fst (sys_run s os) = s' ->
+    v_inserted (dt_vas (s_enc s')) < 2 ^ 62 ->
+    nth_error (s_secs s') j = Some sec -> sec_done sec = false ->
+    dec_decode_header (s_dec s') (sec_block sec) =
+      if v_inserted (dt_vas (s_dec s')) <? sec_required sec then Err (DEMissingRefs (sec_required sec))
+      else Ok (sec_fields sec, 0 <? sec_required sec).
+Proof.
+  intros cap blocked s os s' j sec Hi Hh <- Hlim Hj Hnd.
+  assert (Hcl : cap < 2 ^ 62) by (pose proof (sys_init_cap _ _ _ Hi); unfold q_cap_max in *; lia).
+  destruct (run_full_inv cap os [] [] s (full_inv_init _ _ _ Hi) Hh Hcl Hlim) as (H' & xs' & F).
+  pose proof (fi_secs _ _ _ _ F) as Hsecs. rewrite Hsecs in Hj.
+  pose proof (nth_error_In _ _ Hj) as Hin. apply in_map_iff in Hin. destruct Hin as (x & Ex & Hin).
+  subst sec. eapply full_inv_decode_result; try eassumption. rewrite Hsecs. exact Hj.
+Qed.
+
+(* and the two facts the partial theorem took as premises *)
+Theorem sys_no_early_eviction :
+  forall cap blocked s os s',
+    sys_init cap blocked = Some s -> forallb honest_op os = true -> fst (sys_run s os) = s' ->
+    v_inserted (dt_vas (s_enc s')) < 2 ^ 62 ->
+    v_dropped (dt_vas (s_enc s')) <= v_inserted (dt_vas (s_dec s')) /\
+    (forall j sec a, nth_error (s_secs s') j = Some sec -> sec_done sec = false -> In a (sec_indices cap sec) ->
+                     vas_live (dt_vas (s_enc s')) a /\ dt_is_tracked (s_enc s') a = true).
+Proof.
+  intros cap blocked s os s' Hi Hh <- Hlim.
+  assert (Hcl : cap < 2 ^ 62) by (pose proof (sys_init_cap _ _ _ Hi); unfold q_cap_max in *; lia).
+  destruct (run_full_inv cap os [] [] s (full_inv_init _ _ _ Hi) Hh Hcl Hlim) as (H' & xs' & F).
+  split; [eapply full_inv_oi; eassumption|].
+  intros j sec a Hj Hnd Ha. pose proof (fi_secs _ _ _ _ F) as Hsecs. rewrite Hsecs in Hj.
+  pose proof (nth_error_In _ _ Hj) as Hin. apply in_map_iff in Hin. destruct Hin as (x & Ex & Hin). subst sec.
+  pose proof (si_secs _ _ _ _ (fi_sys _ _ _ _ F)) as Hs2. rewrite Hsecs in Hs2.
+  pose proof (Forall2_map_In _ _ _ _ Hs2 x Hin) as Hso.
+  pose proof (not_done_not_popped _ _ _ (fi_acct _ _ _ _ F) Hin Hnd) as Hp.
+  assert (Hc : 0 < cnt a (g_rs x)).
+  { eapply sec_indices_cnt; try eassumption. destruct (si_hist _ _ _ _ (fi_sys _ _ _ _ F)) as [L _]. rewrite <- L. assumption. }
+  split; [apply (held_live _ xs' x a (si_enc _ _ _ _ (fi_sys _ _ _ _ F)) (fi_acct _ _ _ _ F) Hin Hp Hc)|].
+  unfold dt_is_tracked. pose proof (ea_tot _ _ (fi_acct _ _ _ _ F) a) as Ht. pose proof (tot_ge a xs' x Hin Hp) as Hg.
+  unfold cnt in Ht at 1. destruct (aget N.eqb a (dt_track (s_enc (fst (sys_run s os))))) as [c|]; [|lia].
+  destruct (0 <? c) eqn:E; [reflexivity | lia].
+Qed.
+
+Lemma nth_opt_nth_error {A} (l : list A) : forall j x, nth_opt l j = Some x -> nth_error l (N.to_nat j) = Some x.
+Proof.
+  induction l as [|y l IH]; intros j x; cbn [nth_opt]; [discriminate|].
+  destruct (j =? 0) eqn:E.
+  - intros H. apply N.eqb_eq in E. subst. exact H.
+  - intros H. apply IH in H. replace (N.to_nat j) with (S (N.to_nat (j - 1))) by lia. exact H.
+Qed.
+
+(* what an honest decoder sees when it tries section j in any reachable state *)
+Theorem sys_honest_decode_outcome :
+  forall cap blocked s os s1 j,
+    sys_init cap blocked = Some s -> forallb honest_op os = true -> fst (sys_run s os) = s1 ->
+    v_inserted (dt_vas (s_enc s1)) < 2 ^ 62 ->
+    snd (sys_step s1 (ODecode j true)) =
+      match nth_opt (s_secs s1) j with
+      | None => RNoSuchSection
+      | Some sec =>
+          if sec_done sec then RAlreadyDone
+          else if earlier_pending (s_secs s1) j (sec_sid sec) then RHeld
+          else if v_inserted (dt_vas (s_dec s1)) <? sec_required sec then RDecErr (DEMissingRefs (sec_required sec))
+          else RDecoded (sec_fields sec) (0 <? sec_required sec)
+      end.
+Proof.
+  intros cap blocked s os s1 j Hi Hh Hs1 Hlim. cbn [sys_step].
+  destruct (nth_opt (s_secs s1) j) as [sec|] eqn:En; [|reflexivity]. cbn [andb].
+  destruct (sec_done sec) eqn:Ed; [reflexivity|].
+  destruct (earlier_pending (s_secs s1) j (sec_sid sec)); [reflexivity|].
+  rewrite (sys_agreement cap blocked s os s1 (N.to_nat j) sec Hi Hh Hs1 Hlim (nth_opt_nth_error _ _ _ En) Ed).
+  destruct (v_inserted (dt_vas (s_dec s1)) <? sec_required sec); reflexivity.
 Qed.
